@@ -669,6 +669,22 @@ func (s *Store) Open() (retErr error) {
 			return nil
 		}
 
+		// The marker vouches for the database file as of one particular snapshot. If the
+		// newest snapshot in the store is a different one -- a snapshot received from the
+		// leader was installed in the store, but the node stopped before the database was
+		// replaced by it -- the file is not what the newest snapshot holds.
+		if fp.SnapshotIndex != 0 {
+			li, tm, err := snapshotStore.LatestIndexTerm()
+			if err != nil {
+				return fmt.Errorf("failed to retrieve latest snapshot index/term: %s", err)
+			}
+			if li != fp.SnapshotIndex || tm != fp.SnapshotTerm {
+				s.logger.Printf("clean snapshot marker is for snapshot %d/%d but newest snapshot is %d/%d, full restore needed",
+					fp.SnapshotIndex, fp.SnapshotTerm, li, tm)
+				return nil
+			}
+		}
+
 		// The SQLite file is probably OK, so let's proceed. However we need to
 		// verify its checksum matches what we recorded at snapshot time. This is done
 		// asynchronously so as not to block startup. Writes will go into the WAL in
@@ -3180,10 +3196,17 @@ func (s *Store) createSnapshotFingerprint() error {
 	}
 	stats.Get(snapshotCRC32CreateDuration).(*expvar.Int).Set(dur.Milliseconds())
 
+	li, tm, err := snapshot.LatestIndexTerm(s.snapshotDir)
+	if err != nil {
+		return fmt.Errorf("failed to get latest snapshot index for snapshot finalizer: %s", err)
+	}
+
 	fp := &FileFingerprint{
-		ModTime: mt,
-		Size:    sz,
-		CRC32:   sum,
+		ModTime:       mt,
+		Size:          sz,
+		CRC32:         sum,
+		SnapshotIndex: li,
+		SnapshotTerm:  tm,
 	}
 	if err := fp.WriteToFile(tmpFP); err != nil {
 		return fmt.Errorf("failed to write snapshot fingerprint to temp file: %s", err)
